@@ -251,7 +251,15 @@ impl World {
     pub fn ev_publish(&mut self, to: &[(usize, u32, bool)]) {
         let Ok(bytes) = self.auth.mpk.serialize() else { return };
         let bytes = bytes.to_vec();
+        for e in 0..self.encryptors.len() {
+            if !to.iter().any(|(x, _, _)| *x == e) {
+                self.stats.fault("lost-mpk-update");
+            }
+        }
         for (e, delay, dup) in to {
+            if *delay > 0 {
+                self.stats.fault("delayed-mpk-update");
+            }
             if *e >= self.encryptors.len() {
                 continue;
             }
